@@ -507,4 +507,70 @@ Section Proofs.
     destruct (item_cells o width (r_text r) (r_match r) (if is_cur then 2%N else 0%N)) as [body|]; [|discriminate].
     intros H. inversion H; subst. exists body. split; [|reflexivity]. destruct (r_selected r); reflexivity.
   Qed.
+
+  (** * the header: each line is a prefix of its glyphs, no dots *)
+  Lemma hidden_tail gs : forall p, l_start p <= l_pos p -> l_end p <= l_pos p -> print_glyphs p gs = [].
+  Proof.
+    induction gs as [|[c tg] r IH]; intros p H1 H2; cbn; [reflexivity|].
+    destruct (print_raw p c tg) as [p' out] eqn:E. destruct (print_raw_frame _ _ _ _ _ E) as (F1 & F2 & _ & _ & F5).
+    unfold Draw.print_raw in E.
+    assert (Hh : ((l_pos p <? l_start p) || (l_end p <=? l_pos p)) = true).
+    { apply orb_true_iff. right. apply Nat.leb_le. exact H2. }
+    rewrite Hh in E. inversion E; subst. cbn [app]. apply IH; cbn; lia.
+  Qed.
+
+  Theorem prefix_glyphs gs : forall p,
+    l_start p = 0 -> l_tw p <= l_end p -> exists b, print_glyphs p gs = place (l_scol p) (firstn b gs).
+  Proof.
+    induction gs as [|[c tg] r IH]; intros p Hs Htw; [exists 0; reflexivity|].
+    destruct (Nat.le_gt_cases (l_end p) (l_pos p)) as [Hge|Hlt].
+    - exists 0. cbn [firstn place]. apply hidden_tail; lia.
+    - cbn [print_glyphs]. destruct (print_raw p c tg) as [p' out] eqn:E.
+      destruct (print_raw_frame _ _ _ _ _ E) as (F1 & F2 & F3 & _ & F5).
+      unfold Draw.print_raw in E.
+      assert (H1 : ((l_pos p <? l_start p) || (l_end p <=? l_pos p)) = false).
+      { apply orb_false_iff. split; [apply Nat.ltb_ge; lia | apply Nat.leb_gt; lia]. }
+      rewrite H1 in E.
+      assert (H2 : ((l_pos p <? l_start p + 2) && (0 <? l_start p)) = false).
+      { apply andb_false_iff. right. apply Nat.ltb_ge. lia. }
+      rewrite H2 in E.
+      assert (H3 : ((l_end p - l_pos p <=? 2) && (l_end p <? l_tw p)) = false).
+      { apply andb_false_iff. right. apply Nat.ltb_ge. lia. }
+      rewrite H3 in E. inversion E; subst p' out; clear E.
+      destruct (IH {| l_start := l_start p; l_end := l_end p; l_pos := l_pos p + cw c; l_scol := l_scol p + cw c; l_tw := l_tw p; l_tab := l_tab p |}) as [b Hb]; cbn; auto.
+      exists (S b). cbn [firstn place app]. rewrite Hb. reflexivity.
+  Qed.
+
+  Theorem header_line_prefix width tab t :
+    exists b, header_line cw width tab t = place 2 (firstn b (glyphs tab 0 (tagged MNone 0 7%N t))) /\
+              Forall (fun c => 2 <= fst c < 2 + (width - 2)) (header_line cw width tab t).
+  Proof.
+    unfold Draw.header_line. rewrite print_item_glyphs.
+    match goal with |- context [print_glyphs ?p _] => set (p0 := p) end.
+    destruct (prefix_glyphs (glyphs tab 0 (tagged MNone 0 7%N t)) p0) as [b Hb]; [reflexivity|cbn; lia|].
+    exists b. split; [exact Hb|].
+    rewrite <- (print_item_glyphs (tagged MNone 0 7%N t) p0). apply print_item_in_box. apply lp_init_ok.
+  Qed.
+
+  Theorem header_rows_spec width height tab reverse fixed reserved out :
+    header_rows cw width height tab reverse fixed reserved = Some out ->
+    List.length out = List.length fixed + List.length reserved /\
+    forall k t, nth_error (fixed ++ reserved) k = Some t ->
+      nth_error out k = Some ((if reverse then k else height - k - 1), header_line cw width tab t) /\ k < height.
+  Proof.
+    unfold Draw.header_rows. destruct (width <? 3); [discriminate|].
+    destruct (height <? List.length fixed + List.length reserved) eqn:Hh; [discriminate|]. apply Nat.ltb_ge in Hh.
+    intros H. inversion H; subst out; clear H. rewrite <- app_length in *.
+    assert (G : forall lines idx, List.length (header_from cw width height tab reverse idx lines) = List.length lines /\
+                forall k t, nth_error lines k = Some t ->
+                  nth_error (header_from cw width height tab reverse idx lines) k = Some ((if reverse then idx + k else height - (idx + k) - 1), header_line cw width tab t)).
+    { induction lines as [|x r IH]; intros idx; cbn; [split; [reflexivity|intros k t Hk; destruct k; discriminate]|].
+      destruct (IH (S idx)) as [I1 I2]. split; [rewrite I1; reflexivity|].
+      intros k t Hk. destruct k as [|k]; cbn in *.
+      - inversion Hk; subst. rewrite Nat.add_0_r. reflexivity.
+      - rewrite (I2 k t Hk). replace (idx + S k) with (S idx + k) by lia. reflexivity. }
+    destruct (G (fixed ++ reserved) 0) as [G1 G2]. split; [exact G1|].
+    intros k t Hk. split; [rewrite (G2 k t Hk); reflexivity|].
+    assert (k < List.length (fixed ++ reserved)) by (apply nth_error_Some; congruence). lia.
+  Qed.
 End Proofs.
